@@ -4,7 +4,7 @@ from typing import cast
 from collections.abc import Generator
 from functools import singledispatch
 from typing import Any, IO
-from itertools import chain
+from itertools import chain, groupby
 from pyjelly.options import StreamParameters
 from pyjelly.integrations.generic.generic_sink import (
     GenericStatementSink,
@@ -217,13 +217,15 @@ def graphs_stream_frames(
     statements: Generator[Quad]
     if isinstance(data, GenericStatementSink):
         statements = cast(Generator[Quad], data.store)
-        graphs = split_to_graphs(statements)
-    elif iter(data):
+    else:
         statements = data
-        graphs = split_to_graphs(statements)
 
-    for graph in graphs:
-        yield from stream.graph(graph_id=graph.identifier, graph=graph)
+    # One graph per run of consecutive quads with the same graph name. Unlike
+    # split_to_graphs, groupby does not collect a whole graph before its first
+    # row is written, so frames keep flowing while a large graph is consumed.
+    for graph_id, quads in groupby(statements, key=lambda quad: quad.g):
+        triples = (Triple(quad.s, quad.p, quad.o) for quad in quads)
+        yield from stream.graph(graph_id=graph_id, graph=triples)
 
     if frame := stream.flow.frame_from_dataset():
         yield frame
